@@ -189,13 +189,14 @@ BlkKinds == {K("blk0", n) : n \in B0} \cup {K("blk1", n) : n \in B1} \cup {K("bl
 Kinds == {k \in ScalarKinds \cup BlkKinds : WellFormed(k)}
 TailKinds == {k \in Kinds : TailLegal(k)}
 
-(* a fixed suffix that exhausts both register files and then spills one argument of every stack shape *)
+(* a fixed suffix that exhausts both register files and then spills an argument of every 8-byte stack shape *)
+(* (the 16-byte aligned shape, ld, is the subject of the ld edges out of both stack parities)               *)
 Suffix == <<K("i64", 0), K("d", 0), K("i32", 0), K("f", 0), K("p", 0), K("d", 0), K("u8", 0), K("d", 0),
             K("i64", 0), K("f", 0), K("u16", 0), K("d", 0), K("d", 0), K("d", 0), K("d", 0),
-            K("i16", 0), K("f", 0), K("ld", 0), K("u32", 0), K("d", 0), K("i8", 0)>>
+            K("i16", 0), K("f", 0), K("u32", 0), K("d", 0), K("i8", 0)>>
 TailSuffix == <<K("i64", 0), K("d", 0), K("i64", 0), K("d", 0), K("i64", 0), K("d", 0), K("i64", 0), K("d", 0),
                 K("i64", 0), K("d", 0), K("i64", 0), K("d", 0), K("d", 0), K("d", 0), K("d", 0),
-                K("i64", 0), K("ld", 0), K("d", 0), K("i64", 0)>>
+                K("i64", 0), K("d", 0), K("i64", 0)>>
 
 Init == st = St0 /\ h = <<>> /\ res = <<>> /\ nf = -1
 Step(k) == /\ st' = PlaceArg(st, k).st
